@@ -163,11 +163,11 @@ def run_case(R: Recorder, case: dict[str, Any], verbose: bool = False) -> None:
 
     with patched_time(clock):
         if split:
-            status, value, loop = run_virtual(lambda lp: main(lp, 0, split), clock=clock, max_iterations=100000)
+            status, value, loop = run_virtual(lambda lp: main(lp, 0, split), clock=clock, max_iterations=20000)
             if status == "ok":
-                status, value, loop = run_virtual(lambda lp: main(lp, split, n), clock=clock, max_iterations=100000)
+                status, value, loop = run_virtual(lambda lp: main(lp, split, n), clock=clock, max_iterations=20000)
         else:
-            status, value, loop = run_virtual(main, clock=clock, max_iterations=100000)
+            status, value, loop = run_virtual(main, clock=clock, max_iterations=20000)
 
     # ---- classify the case ----------------------------------------------------------------------------
     arr = [0.0] * n
